@@ -54,7 +54,7 @@ IDS = [0, 2, 4, 1]
 
 # (type, variant, number of activation operands)
 VARIANTS = {
-    'FULLY_CONNECTED': [('bias', 1), ('nobias', 1)],
+    'FULLY_CONNECTED': [('bias', 1), ('nobias', 1), ('bias_relu', 1)],
     'CONV_2D': [('1x1', 1), ('2x2same', 1)],
     'DEPTHWISE_CONV_2D': [('m1', 1)],
     'CONV_2D_TRANSPOSE': [('bias', 1), ('nobias', 1)],
@@ -192,6 +192,8 @@ class _G:
     t.shape = np.array(shape, dtype=np.int32)
     t.type = ttype
     t.buffer = self.buf(data) if buffer is None else buffer
+    # converter normal form: every tensor carries an (empty) quantization table
+    t.quantization = s.QuantizationParametersT()
     self.sg.tensors.append(t)
     tid = len(self.sg.tensors) - 1
     if data is not None:
@@ -309,7 +311,9 @@ def _b_fc(c, v, ins):
   w = c.fconst('w', [4, sh[-1]], weight=True)
   y_shape = sh[:-1] + [4]
   opt = _opt(s.FullyConnectedOptionsT, keepNumDims=True)
-  if v == 'bias':
+  if v == 'bias_relu':
+    opt.fusedActivationFunction = s.ActivationFunctionType.RELU
+  if v in ('bias', 'bias_relu'):
     b = c.fconst('b', [4], 'rand')
     y = c.out(y_shape)
     c.g.op(BO.FULLY_CONNECTED, [x, w, b], [y], OPT.FullyConnectedOptions, opt)
@@ -604,7 +608,8 @@ def build(ir):
   out.g = g
   pool = int(ir.get('pool', 0))
   sep = _sep(ir.get('names', 'plain'))
-  xshape = {'S4': S4, 'S43': [1, 2, 2, 3], 'R2': [2, 4], 'O13': [1, 3],
+  xshape = {'S4': S4, 'S43': [1, 2, 2, 3], 'R2': [2, 4], 'R3': [1, 2, 4],
+            'O13': [1, 3],
             'O35': [3, 5]}[ir.get('x', 'S4')]
   weights = {}  # (subgraph, op index) -> (tensor id, buffer, array)
   for si, sub in enumerate(ir['subgraphs']):
